@@ -39,6 +39,7 @@ def main():
         env = dict(os.environ)
         env["VERIF_REPO"] = str(root)
         env["VERIF_EVID"] = str(d / "evidence")
+        env["VERIF_BUILD"] = str(d / "build")          # own build/cfg/replay directories: mutation runs may run side by side
         r = subprocess.run([str(vlib.VERIF / "check"), a.prop, "--tier", a.tier], env=env)
         return r.returncode
     finally:
